@@ -51,7 +51,41 @@ definition mirrors (under /repo/libs/core/include/fcppt/ unless noted):
 * `parseSequence`, `parseRepetition` — /repo/libs/parse/include/fcppt/parse/sequence_impl.hpp + detail/sequence_result.hpp, repetition_impl.hpp:
                          the sub-results are moved into the tuple / vector (no arguments: every value is made by the user's converter)
 
-The user's functions (part of the harness, see harness/c05.cpp): given an rvalue they move it
+Extension rounds (166 operations in all):
+
+* `callAt`, `zipCall2`  — functions of two arguments: `optional::apply` / `maybe_multi` / `maybe_void_multi`, `either::apply`, `variant::apply`,
+                         `grid::apply`, `array::apply` hand *both* arguments on with `move_if_rvalue<Arg_k>`; the harness function `both` keeps
+                         what it gets, so the value category of every argument is observed on its own (`tuple::apply`: `tuple::get` has no
+                         rvalue overload, the function always gets lvalues; its first tuple has to be an rvalue - `apply_result` applies
+                         `tuple::size` to the reference type); `optional::combine` has a fixed result type: the harness function `sink_second`
+                         consumes the second argument (`sinkAt`)
+* `tupInvoke` … `recInit` — tuple/invoke.hpp, apply.hpp, from_array.hpp, make.hpp, init.hpp, array/apply.hpp, init.hpp, make.hpp,
+                         record/object_impl.hpp + detail/init_ctor.hpp (the vararg constructor from `label = value` initializers), record/init.hpp;
+                         `recSet` — record/set.hpp
+* `optMake` … `optCopyValue` — optional/make.hpp, object_impl.hpp (constructors), assign.hpp (rvalue only), to_exception.hpp, make_if.hpp, maybe.hpp,
+                         maybe_void.hpp, maybe_multi.hpp, maybe_void_multi.hpp, copy_value.hpp
+* `eithMakeSuccess` … `eithLoop`, `varCtor` — either/make_success.hpp, make_failure.hpp, object_impl.hpp, construct.hpp, try_call.hpp, to_exception.hpp,
+                         error_from_optional.hpp, sequence_error.hpp (through fold_break), loop.hpp; variant/object_impl.hpp
+* `algFindOpt` … `algSeqIteration(Vec)` — algorithm/find_opt.hpp, index_of.hpp, contains.hpp (the value may alias an element: `find_opt(v, v[k])`),
+                         find_if_opt.hpp, find_by_opt.hpp, generate_n.hpp, map_iteration.hpp, map_iteration_second.hpp, sequence_iteration.hpp
+                         (`std::list`: nodes are erased; `std::vector`: `erase` move-assigns the later elements - `shift`)
+* `compact`            — algorithm/remove_if.hpp, unique_if.hpp (+ remove.hpp, unique.hpp): libstdc++'s `std::remove_if` / `std::unique` followed by
+                         `erase(position, end)`
+* `contInsert` … `contIndexMapGet` — container/insert.hpp, set_union.hpp, set_difference.hpp, set_intersection.hpp (also with the same set twice),
+                         map_values_copy.hpp, at_optional.hpp, maybe_back.hpp, maybe_front.hpp, find_opt_mapped.hpp, index_map_impl.hpp
+* `treeCtorTree` … `treeSortPred` — container/tree/object_impl.hpp: copy / move / (value, child list) constructors, copy / move / self assignment,
+                         `value(T const &)` / `value(T &&)`, push_front, insert (value and tree), pop_back, pop_front, erase (one, range), clear,
+                         sort (both), swap
+* `gridCtorFn` … `gridFill` — container/grid/object_impl.hpp (constructors from a function, a value, static rows (rvalue rows only), a grid;
+                         copy / move / self assignment), static_row.hpp, fill.hpp
+* `joinSelf` … `optCombineSelf` — the same lvalue object as both arguments
+* `algMapList`, `algMapArr`, `algMapTup`, `algLoopBreakTuple` — algorithm/map_impl.hpp without `reserve`, map_array.hpp, map_tuple.hpp, loop_break_tuple.hpp
+* `parseAlt` … `parseRepPlus` — /repo/libs/parse: alternative_impl.hpp, optional_impl.hpp, convert_impl.hpp, as_struct.hpp, separator_impl.hpp,
+                         list_impl.hpp, repetition_plus_impl.hpp (after fix aef45df the first result is moved)
+* `optsArgument` … `optsSum` — /repo/libs/options: argument_impl.hpp, optional_impl.hpp, product_impl.hpp (options::apply), many_impl.hpp, sum_impl.hpp:
+                         the result records are moved through the combinators
+
+The user's functions (part of the harness, see harness/c05_common.hpp): given an rvalue they move it
 through (same identity), given an lvalue they read it and make a new value (`derive`).
 -/
 namespace Fcppt.C05
